@@ -17,7 +17,9 @@ RULE = ("metafiles created here (all versions, hostile names/URLs), edited here,
         "distinct by (version, source, key set, request); non-trivial when a name/URL has "
         "reserved or non-ASCII characters or the key set is foreign")
 
-HOSTILE = ["a b", "a&b=c", "100%", "x+y", "#1", "é😀", "p/q", "~t.-_", "日本語", "a%26b", "?q"]
+HOSTILE = ["a b", "a&b=c", "100%", "x+y", "#1", "é😀", "p/q", "~t.-_", "日本語", "a%26b", "?q",
+           # characters str.isprintable() rejects: they belong to the name all the same
+           "tab\there", "zero\u200dwidth", "\u202eflipped", "soft\u00adhyphen", "line\nbreak", "del\x7f"]
 
 
 def expected_parts(raw, version):
